@@ -192,10 +192,18 @@ func subStackScenario(depth int, c int) *explore.Scenario {
 				return
 			}
 		}
-		ch, err := sub.Subscribe(context.Background(), "t")
+		// the consumer may end its subscription while it still holds a message and settle that one afterwards
+		// (its context is over by then): that settlement is counted like any other
+		cancelAt := vs.Choose(n+1, 0, "subscription cancelled while holding message") - 1
+		subCtx, cancelSub := context.WithCancel(context.Background())
+		defer cancelSub()
+		ch, err := sub.Subscribe(subCtx, "t")
 		if err != nil {
 			vs.Fail("subscribe-error", "%v", err)
 			return
+		}
+		if cancelAt >= 0 {
+			n = cancelAt + 1 // nothing is delivered after the cancel
 		}
 		var got []string
 		acks, nacks := 0, 0
@@ -204,6 +212,10 @@ func subStackScenario(depth int, c int) *explore.Scenario {
 			defer close(done)
 			for m := range ch {
 				got = append(got, m.UUID)
+				if len(got)-1 == cancelAt {
+					cancelSub()
+					vs.Quiesce() // the decorators have seen the context end before the settlement comes
+				}
 				if vs.Choose(2, 0, "ack or nack") == 0 {
 					m.Ack()
 					acks++
@@ -213,8 +225,11 @@ func subStackScenario(depth int, c int) *explore.Scenario {
 				}
 			}
 		}()
+		if cancelAt >= 0 {
+			<-done // the consumer settles its last message after its own quiescence point
+		}
 		vs.Quiesce()
-		cfg := fmt.Sprintf("stack %sinner, %d messages", stack, n)
+		cfg := fmt.Sprintf("stack %sinner, %d messages, subscription cancelled at message %d", stack, n, cancelAt)
 		ds := inner.Snapshot()
 		if len(got) != n || len(ds) != n {
 			vs.Fail("transparent", "%s: consumer received %d, inner handed out %d", cfg, len(got), len(ds))
